@@ -18,13 +18,13 @@ import (
 // It keeps the ledger of opens/closes, the set of paths touched, and can inject faults by
 // operation index.
 type recFs struct {
-	inner afero.Fs
-	mu    sync.Mutex
-	ops   int
-	paths map[string]struct{}
-	log   []string
-	open  map[int]string
-	nextH int
+	inner         afero.Fs
+	mu            sync.Mutex
+	ops           int
+	paths         map[string]struct{}
+	log           []string
+	open          map[int]string
+	nextH         int
 	nOpen, nClose int
 	mutating      int
 	// fault injection: operation index -> kind ("err", "short", "nerr")
